@@ -7,6 +7,7 @@ package shell_operator
 // cluster changes from the very first moment. All schedules within the delay bound.
 
 import (
+	corev1 "k8s.io/api/core/v1"
 	"k8s.io/apimachinery/pkg/runtime"
 	fakedynamic "k8s.io/client-go/dynamic/fake"
 	k8stesting "k8s.io/client-go/testing"
@@ -34,6 +35,9 @@ type c06tmpl struct {
 	events  map[string]string // binding -> the start-up item that must precede its Events ("" = none)
 	scheds  []string
 	noSync  []string // bindings that must never get a Synchronization context
+	// lateNs: during the first environment round a namespace matching the hook's
+	// namespace.labelSelector appears, with an object already in it
+	lateNs bool
 }
 
 func c06menu() []c06tmpl {
@@ -198,9 +202,24 @@ func c06body(spec c06spec, obs *c06obs) func(x *vrt.Exec) {
 			return n
 		}
 		envDone := false
+		lateNs := false
+		for _, h := range spec.Hooks {
+			lateNs = lateNs || h.lateNs
+		}
 		round := func(i int) {
 			schedulemanager.ZZRunJobs(fx.op.ScheduleManager)
 			vrt.Yield("env-kube")
+			if lateNs && i == 1 {
+				o := cmObj("n3", "o", 0)
+				if _, err := dyn.Resource(cmGVR).Namespace("n3").Create(ctx, o, metav1.CreateOptions{}); err != nil {
+					panic(err)
+				}
+				nsObj := &corev1.Namespace{ObjectMeta: metav1.ObjectMeta{Name: "n3", Labels: map[string]string{"watch": "yes"}}}
+				if _, err := fx.op.KubeClient.CoreV1().Namespaces().Create(ctx, nsObj, metav1.CreateOptions{}); err != nil {
+					panic(err)
+				}
+				hub.NotifyNs("add", nsObj)
+			}
 			for _, ns := range []string{"n1", "n2"} {
 				old, _ := dyn.Resource(cmGVR).Namespace(ns).Get(ctx, "o", metav1.GetOptions{})
 				o := cmObj(ns, "o", i)
@@ -378,6 +397,10 @@ func c06extra() []c06tmpl {
 		// one execution (the grouped head absorbs the Synchronization tasks behind it)
 		{id: "group-split", config: "configVersion: v1\nkubernetes:\n- name: kg5\n  kind: ConfigMap\n  group: g4\n  namespace: {nameSelector: {matchNames: [n1]}}\n- name: kb5\n  kind: ConfigMap\n  namespace: {nameSelector: {matchNames: [n2]}}\n- name: kg6\n  kind: ConfigMap\n  group: g4\n  namespace: {nameSelector: {matchNames: [n1]}}\n",
 			syncs: []string{"sync:kb5"}, events: map[string]string{"kg5": "sync:kb5", "kb5": "sync:kb5", "kg6": "sync:kb5"}},
+		// a namespace.labelSelector binding in a named queue; a matching namespace that already holds
+		// an object appears while start-up is still under way
+		{id: "nslabel-q2", config: "configVersion: v1\nkubernetes:\n- name: kb7\n  kind: ConfigMap\n  namespace: {nameSelector: {matchNames: [n1]}}\n- name: kl7\n  kind: ConfigMap\n  queue: q2\n  namespace: {labelSelector: {matchLabels: {watch: \"yes\"}}}\n",
+			syncs: []string{"sync:kb7", "sync:kl7"}, events: map[string]string{"kb7": "sync:kb7", "kl7": "sync:kl7"}, lateNs: true},
 		{id: "group-nosync-last", config: "configVersion: v1\nkubernetes:\n- name: kg4\n  kind: ConfigMap\n  group: g3\n  namespace: {nameSelector: {matchNames: [n1]}}\n- name: kgm\n  kind: ConfigMap\n  group: g3\n  executeHookOnSynchronization: false\n  namespace: {nameSelector: {matchNames: [n2]}}\n",
 			syncs: []string{"group:g3"}, events: map[string]string{"kg4": "group:g3", "kgm": ""}},
 	}
